@@ -93,6 +93,9 @@ func guarded(c *core.Ctx, op string, expectedPanicOK bool, f func() string) {
 // C13 on the real outputs (t >= 0 only: negative timestamps are outside the property).
 func opAll(c *core.Ctx, k calcT, t int64) {
 	op := fmt.Sprintf("all %s %d", k.name, t)
+	if zoneTag != "" {
+		op = fmt.Sprintf("zall %s %s %d", zoneTag, k.name, t)
+	}
 	guarded(c, op, false, func() string {
 		calc := k.calc
 		seg := calc.CalcSegmentTime(t)
@@ -101,14 +104,18 @@ func opAll(c *core.Ctx, k calcT, t int64) {
 		end := calc.CalcFamilyEndTime(start)
 		ft := calc.CalcFamilyTime(t)
 		name := calc.GetSegment(t)
-		if t >= 0 {
+		if t >= 0 && t+zoneOffMs >= 0 && zoneOracle {
 			checkBucket(c, k, t, name, seg, start, end, ft)
 		}
 		return fmt.Sprintf("%s %d %d %d %d %d", name, seg, fam, start, end, ft)
 	})
 }
 
-func checkBucket(c *core.Ctx, k calcT, t int64, name string, seg, start, end, ft int64) {
+func checkBucket(c *core.Ctx, k0 calcT, t int64, name string, seg, start, end, ft int64) {
+	k := k0
+	if zoneTag != "" { // same statement, evaluated with time.Local = a fixed-offset zone
+		k.name = k0.name + "@zone" + zoneTag
+	}
 	calc := k.calc
 	if !(start <= t && t <= end) {
 		c.Fail("family-contains/"+k.name, fmt.Sprintf("t=%d family=[%d,%d]", t, start, end))
@@ -122,7 +129,7 @@ func checkBucket(c *core.Ctx, k calcT, t int64, name string, seg, start, end, ft
 	if n := calc.CalcFamilyTime(end + 1); n != end+1 {
 		c.Fail("families-tile/"+k.name, fmt.Sprintf("t=%d family=[%d,%d] familyTime(end+1)=%d", t, start, end, n))
 	}
-	if start > 0 {
+	if start > 0 && start-1+zoneOffMs >= 0 {
 		if pe := calc.CalcFamilyEndTime(calc.CalcFamilyTime(start - 1)); pe != start-1 {
 			c.Fail("families-tile-prev/"+k.name, fmt.Sprintf("t=%d family start=%d previous family ends at %d", t, start, pe))
 		}
@@ -158,6 +165,44 @@ func randInterval(r *rand.Rand, k calcT) int64 {
 		return k.intervals[r.Intn(len(k.intervals))]
 	}
 	return k.lo + r.Int63n(k.hi-k.lo+1)
+}
+
+// zone pass state: when zoneTag is set, time.Local is a non-UTC zone, `all` becomes `zall <tag>`
+// (tag = offset in seconds east of UTC, or a named DST witness zone) and oracle keys get a suffix.
+var (
+	zoneTag    string
+	zoneOffMs  int64
+	zoneOracle = true
+)
+
+type zoneT struct {
+	name string // "" = time.FixedZone
+	off  int    // seconds east of UTC
+}
+
+// fixed-offset zones of the second pass (no DST in any of them); the named ones go through the tz
+// database and time.LoadLocation, the others through time.FixedZone
+var zones = []zoneT{
+	{"Etc/GMT-8", 8 * 3600}, {"", 5*3600 + 1800}, {"", 5*3600 + 2700}, {"Etc/GMT+5", -5 * 3600}, {"", -11 * 3600},
+	{"Etc/GMT-14", 14 * 3600}, {"", 3600}, {"", -(3*3600 + 1800)}, {"", 9*3600 + 1800}, {"", 12*3600 + 2700}, {"Etc/GMT+12", -12 * 3600},
+}
+
+// withZone runs f with time.Local = the zone and the zone pass state set; restores UTC afterwards.
+func withZone(c *core.Ctx, z zoneT, f func(loc *time.Location)) {
+	loc := time.FixedZone(fmt.Sprintf("F%+d", z.off), z.off)
+	if z.name != "" {
+		l, err := time.LoadLocation(z.name)
+		if err != nil {
+			c.Branch("zone/tzdata-missing-fallback-fixedzone")
+		} else {
+			loc = l
+			c.Branch("zone/tzdata-named-zone")
+		}
+	}
+	time.Local = loc
+	zoneTag, zoneOffMs = fmt.Sprint(z.off), int64(z.off)*1000
+	defer func() { time.Local = time.UTC; zoneTag, zoneOffMs = "", 0 }()
+	f(loc)
 }
 
 func (area) Run(c *core.Ctx) error {
@@ -223,8 +268,50 @@ func witnesses(c *core.Ctx) {
 			opPlan(c, 0, base, base+dd, true, []int64{10 * sec, 5 * min, hour})
 		}
 	}
-	// observation (C11, outside C13's statement): range lookup across a month / year boundary
+	// range lookup across a month / year / day boundary on real shards (what fix 8adefd6 repaired)
 	observeLookup(c)
+	// negative timestamps (outside the property, Props.C13.Neg.negative_*): correspondence only
+	for _, k := range calcs {
+		for _, t := range []int64{-1, -999, -1000, -2000, -86400500, -86400000, -86399999} {
+			opAll(c, k, t)
+		}
+	}
+	dstWitness(c)
+}
+
+// dstWitness replays Props.C13.Neg.dst_25h_day_slot_wraps on the real code with
+// time.Local = America/New_York (tz database): DST zones are outside the model and outside the
+// oracle; the `zall ny2024` / `slot` ops are diffed against the one-transition zone model.
+func dstWitness(c *core.Ctx) {
+	loc, err := time.LoadLocation("America/New_York")
+	if err != nil {
+		c.Branch("dst/tzdata-missing")
+		fmt.Println("OBSERVATION DST witness skipped: tz database not available:", err)
+		return
+	}
+	time.Local = loc
+	zoneTag, zoneOracle = "ny2024", false
+	defer func() { time.Local = time.UTC; zoneTag, zoneOracle = "", true }()
+	monthK, dayK := calcs[1], calcs[0]
+	base := time.Date(2024, 11, 3, 0, 0, 0, 0, loc).UnixMilli()
+	for _, t := range []int64{base, base + hour, base + 90*min, base + 2*hour, base + 3*hour, base + 24*hour + 30*min, base + 25*hour - 1, base + 25*hour, base - 1,
+		time.Date(2024, 11, 2, 12, 0, 0, 0, loc).UnixMilli(), time.Date(2024, 11, 5, 12, 0, 0, 0, loc).UnixMilli()} {
+		opAll(c, monthK, t)
+		opAll(c, dayK, t)
+	}
+	t := base + 24*hour + 30*min // 23:30 EST on the 25-hour day
+	ft := monthK.calc.CalcFamilyTime(t)
+	fe := monthK.calc.CalcFamilyEndTime(ft)
+	var slot int
+	guarded(c, fmt.Sprintf("slot month %d %d %d", t, ft, 5*min), false, func() string {
+		slot = monthK.calc.CalcSlot(t, ft, 5*min)
+		return fmt.Sprint(slot)
+	})
+	if fe-ft+1 == 25*hour && int64(slot) != (t-ft)/(5*min) {
+		c.Branch("dst/25h-day-slot-wraps")
+	}
+	fmt.Printf("OBSERVATION DST (America/New_York 2024-11-03, 25h day): family [%d,%d] length %dh, t=%d CalcSlot(5m)=%d, slot of t in the family=%d\n",
+		ft, fe, (fe-ft+1)/hour, t, slot, (t-ft)/(5*min))
 }
 
 // ---------------------------------------------------------------- calendar sweep
@@ -264,6 +351,25 @@ func sweepYear(c *core.Ctx, r *rand.Rand, year int) {
 		k := calcs[r.Intn(len(calcs))]
 		opSlot(c, k, inst, randInterval(r, k))
 	}
+	// second pass: the same year, every LOCAL day of a fixed-offset zone through time.Local
+	// (fixed_offset_translation): first ms, last ms and a random instant of the local day
+	withZone(c, zones[(year-firstYear)%len(zones)], func(loc *time.Location) {
+		for d := time.Date(year, 1, 1, 0, 0, 0, 0, loc); d.Year() == year; d = d.AddDate(0, 0, 1) {
+			start := d.UnixMilli()
+			if start < 0 {
+				continue
+			}
+			c.Branch("sweep/zone-day")
+			inst := start + r.Int63n(day)
+			for _, k := range calcs {
+				opAll(c, k, start)
+				opAll(c, k, start+day-1)
+				opAll(c, k, inst)
+			}
+			k := calcs[r.Intn(len(calcs))]
+			opSlot(c, k, inst, randInterval(r, k))
+		}
+	})
 }
 
 // ---------------------------------------------------------------- random streams
